@@ -136,23 +136,24 @@ fn pv_model(a: &Attribute, pv: &PartialValue, needle: bool) -> J {
             let tab: &[&str] = if needle { &NEEDLES } else { &STRS };
             match tab.iter().position(|x| *x == s.as_str() && !x.is_empty()) {
                 Some(i) => json!(i),
-                None => json!(format!("?{s}")),
+                None => json!(-1),
             }
         }
         PartialValue::Uint32(n) => json!(n),
         PartialValue::Iutf8(s) if a == &Attribute::Class => match s.as_str() {
             "recycled" => json!(V_RECYCLED),
             "tombstone" => json!(V_TOMBSTONE),
-            o => json!(format!("?{o}")),
+            _ => json!(-1),
         },
         PartialValue::Uuid(u) => {
             let n = name_of(*u);
+            // a uuid outside the model population (e.g. the internal identity resolving Self) is "nobody" = 0
             match n.strip_prefix('e').and_then(|x| x.parse::<u64>().ok()) {
                 Some(i) => json!(i),
-                None => json!(format!("?{n}")),
+                None => json!(0),
             }
         }
-        o => json!(format!("?{o:?}")),
+        _ => json!(-1),
     }
 }
 
@@ -225,7 +226,9 @@ pub async fn new_server() -> QueryServer {
 pub async fn populate(qs: &QueryServer, shapes: &[Shape], at: u64) {
     let mut wr = qs.write(t(at)).await.unwrap_or_else(|_| tool_error("write txn"));
     let es: Vec<EntryInitNew> = shapes.iter().enumerate().map(|(i, s)| entry_of(i as u64 + 1, s)).collect();
-    wr.internal_create(es).unwrap_or_else(|e| tool_error(&format!("populate {e:?}")));
+    if !es.is_empty() {
+        wr.internal_create(es).unwrap_or_else(|e| tool_error(&format!("populate {e:?}")));
+    }
     for (i, s) in shapes.iter().enumerate() {
         if s.recycled {
             wr.internal_delete_uuid(uuid_e(i as u64 + 1)).unwrap_or_else(|e| tool_error(&format!("recycle {e:?}")));
